@@ -27,8 +27,11 @@ def small_identities():
     paths = segs + ["%s/%s" % (x, y) for x in segs[:2] for y in segs] + ["/a", "a/b/a"]
     vals = ["a", "b", "ab", "a_b", "q_a"]
     ids = []
-    for name in ["p", "q"]:
+    for name in ["p", "q", "P", "p q", "p_q", "p:q"]:        # names that differ only in what sanitising folds together
         ids.append((name, (), (), (), ()))
+        if name not in ("p", "q"):
+            ids.append((name, (("in", "a"),), (), (("p", "a"),), ()))
+            continue
         for p in paths:
             ids.append((name, (("in", p),), (), (), ()))
             for p2 in paths[:6]:
